@@ -10,7 +10,10 @@ import (
 	"encoding/json"
 	"errors"
 	"fmt"
+	"os"
+	"regexp"
 	"strings"
+	"time"
 
 	"github.com/compose-spec/compose-go/v2/template"
 
@@ -135,7 +138,91 @@ func init() {
 			return nil
 		},
 	})
+	// substLoad: the second observation point of the property — "string values in a project loaded from a
+	// document using the template".  The rendered template is the value of a label in a one-service
+	// compose file; the loaded project's label (or the class of the load error) is compared with the grammar.
+	core.Register("substLoad", &core.CheckDef{
+		Real: func(raw json.RawMessage) any {
+			var a specArgs
+			json.Unmarshal(raw, &a)
+			t := renderSegs(a.Ast)
+			q, _ := json.Marshal(t) // a JSON string is a YAML double-quoted scalar
+			req := core.LoadReq{
+				Files:       map[string]string{"compose.yaml": "name: p\nservices:\n  s:\n    image: img\n    labels:\n      k: " + string(q) + "\n"},
+				ConfigFiles: []string{"compose.yaml"},
+				Env:         a.Env,
+			}
+			p, root, err := req.Load()
+			defer os.RemoveAll(root)
+			if err != nil {
+				return map[string]any{"rendered": t, "out": map[string]any{"err": loadErrClass(err.Error())}}
+			}
+			svc, ok := p.Services["s"]
+			if !ok {
+				return map[string]any{"rendered": t, "out": map[string]any{"bad": "service missing"}}
+			}
+			return map[string]any{"rendered": t, "out": map[string]any{"ok": svc.Labels["k"]}}
+		},
+		DriverOp: "substSpec",
+		Timeout:  20 * time.Second,
+		Judge: func(args, real, drv json.RawMessage) *core.Verdict {
+			if v := core.CrashVerdict(real); v != nil {
+				return v
+			}
+			var r struct {
+				Rendered string          `json:"rendered"`
+				Out      json.RawMessage `json:"out"`
+			}
+			var d struct {
+				WF       bool            `json:"wf"`
+				WFml     bool            `json:"wf_ml"`
+				Rendered string          `json:"rendered"`
+				Eval     json.RawMessage `json:"eval"`
+			}
+			if json.Unmarshal(real, &r) != nil || json.Unmarshal(drv, &d) != nil || d.Eval == nil {
+				return core.Disagree("malformed spec-oracle exchange")
+			}
+			if r.Rendered != d.Rendered {
+				return core.Disagree("Go render ≠ Lean render")
+			}
+			if !d.WF && !d.WFml {
+				return core.Skip("not well-formed")
+			}
+			// the grammar's verdict, with errors reduced to their class
+			var ev map[string]any
+			json.Unmarshal(d.Eval, &ev)
+			want := map[string]any{}
+			if e, isErr := ev["err"]; isErr {
+				want["err"] = e
+			} else {
+				want["ok"] = ev["ok"]
+			}
+			wantRaw, _ := json.Marshal(want)
+			if !core.CanonEqual(r.Out, wantRaw) {
+				if !d.WF {
+					return core.Fail("grammar:newline-in-argument", fmt.Sprintf("label %q loaded as %s but the grammar says %s", r.Rendered, r.Out, wantRaw))
+				}
+				return core.Fail("load-grammar:"+specShape(args), fmt.Sprintf("label %q loaded as %s but the grammar says %s", r.Rendered, r.Out, wantRaw))
+			}
+			return nil
+		},
+	})
 	core.RegisterProp("C07", runC07)
+}
+
+var (
+	reRequired = regexp.MustCompile(`required variable`)
+	reInvalid  = regexp.MustCompile(`(?i)invalid (template|interpolation format)`)
+)
+
+func loadErrClass(s string) string {
+	switch {
+	case reRequired.MatchString(s):
+		return "required"
+	case reInvalid.MatchString(s):
+		return "invalid"
+	}
+	return "other: " + s
 }
 
 // specShape classifies a failing AST by the operators it uses (the key of a finding).
@@ -321,6 +408,12 @@ func runC07(ctx *core.Ctx) {
 			}
 		}
 		ctx.Count("ast-random")
-		ctx.Add("substSpec", specArgs{Ast: rnd(3, false), Env: env})
+		ast := rnd(3, false)
+		ctx.Add("substSpec", specArgs{Ast: ast, Env: env})
+		if i%ctx.Pick(10, 40) == 0 {
+			// every n-th random AST is also pushed through the whole loader
+			ctx.Count("ast-random-load")
+			ctx.Add("substLoad", specArgs{Ast: ast, Env: env})
+		}
 	}
 }
